@@ -66,3 +66,55 @@ Proof.
 Qed.
 
 (* without atomicity (load; add; store as separate steps) an update is lost: C18_shared_write_refuted *)
+
+(* ---- the premise "each update is ONE atomic read-modify-write" is read from the source: harness/c18_values.py lists, for every
+   function of the library that touches a std::atomic, the operations in evaluation order (gen/RaceFreeGen.v: atomic_sites) *)
+From Coq Require Import String Bool.
+Inductive aaccess := ARmw | ALoad | AStore.
+   (* ARmw: fetch_add / fetch_sub / ++ / -- / += / exchange / compare_exchange;  ALoad: load() / conversion;  AStore: store() / operator= *)
+Record asite := { as_name : string; as_fresh : bool;      (* a constructor other than the copy constructor: the object is not shared yet *)
+                  as_accesses : list aaccess }.
+Definition is_store (a : aaccess) : bool := match a with AStore => true | _ => false end.
+Definition atomic_split_updates (l : list asite) : list string :=
+  map as_name (filter (fun s => negb (as_fresh s) && existsb is_store (as_accesses s)) l).
+
+Definition NoSplitNoStore_stmt : Prop :=
+  forall l, atomic_split_updates l = [] -> forall s, In s l -> as_fresh s = false -> ~ In AStore (as_accesses s).
+Lemma no_split_updates_no_store : NoSplitNoStore_stmt.
+Proof.
+  intros l Hnil s Hin Hf Hst.
+  assert (In s (filter (fun s => negb (as_fresh s) && existsb is_store (as_accesses s)) l)) as Hi.
+  { apply filter_In. split; [exact Hin|]. rewrite Hf. cbn. apply existsb_exists. exists AStore. split; [exact Hst|reflexivity]. }
+  unfold atomic_split_updates in Hnil. apply (in_map as_name) in Hi. rewrite Hnil in Hi. destruct Hi.
+Qed.
+
+(* ---- the premise is needed: an increment written as load + store (every access still atomic, no data race in the C++ sense,
+   ThreadSanitizer silent) loses an update in some interleaving: two threads each "increment" once, the count grows by ONE,
+   where two atomic increments give +2 in every interleaving (atomic_counter).  State: the counter and one register per thread. *)
+Inductive sop := SLoad | SStore.
+Definition sstate := (Z * (nat -> Z))%type.
+Definition sstep (i : nat) (o : sop) (σ : sstate) : sstate :=
+  match o with
+  | SLoad => (fst σ, fun j => if Nat.eqb j i then fst σ else snd σ j)
+  | SStore => (snd σ i + 1, snd σ)
+  end.
+Fixpoint sfinal (σ : sstate) (tr : list (nat * sop)) : sstate :=
+  match tr with [] => σ | (i, o) :: r => sfinal (sstep i o σ) r end.
+Definition split_prog : list (list sop) := [[SLoad; SStore]; [SLoad; SStore]].
+Definition split_trace : list (nat * sop) := [(0, SLoad); (1, SLoad); (0, SStore); (1, SStore)]%nat.
+Definition seq_trace : list (nat * sop) := [(0, SLoad); (0, SStore); (1, SLoad); (1, SStore)]%nat.
+
+Definition SplitIncrement_refuted_stmt : Prop :=
+  forall c regs,
+    dsched sop split_prog split_trace /\ fst (sfinal (c, regs) split_trace) = c + 1 /\      (* one sharer is not counted *)
+    dsched sop split_prog seq_trace /\ fst (sfinal (c, regs) seq_trace) = c + 2 /\          (* the sequential run counts both *)
+    (forall tr, dsched aop [[AInc]; [AInc]] tr -> afinal c tr = c + 2).                    (* one RMW each: +2 in EVERY interleaving *)
+Lemma split_increment_refuted : SplitIncrement_refuted_stmt.
+Proof.
+  intros c regs. split; [|split; [|split; [|split]]].
+  - repeat (eapply dsched_cons; [reflexivity|cbn [set_nth]]). apply dsched_nil. repeat constructor.
+  - cbn. lia.
+  - repeat (eapply dsched_cons; [reflexivity|cbn [set_nth]]). apply dsched_nil. repeat constructor.
+  - cbn. lia.
+  - intros tr H. rewrite (atomic_counter _ _ c H). cbn. lia.
+Qed.
